@@ -257,7 +257,7 @@ func (g *vhgState) step() {
 // vhgHistory generates a history of about n requests.
 func vhgHistory(r *rand.Rand, n int, mode string, wga bool, nconn, nfid, nname int) []vhsOp {
 	g := &vhgState{r: r, s: vhsNewSess(wga, nil), fids: map[[2]int]*vhgFid{}, nconn: nconn, nfid: nfid, nname: nname, mode: mode}
-	for tries := 0; len(g.ops) < n && tries < 4*n; tries++ {
+	for tries := 0; len(g.ops) < n && tries < 4*n && g.s.broken == "" && !vhsTooStuck(); tries++ {
 		g.step()
 	}
 	g.s.abandon()
@@ -292,6 +292,9 @@ func vhsReplay(kind string, ops []vhsOp, wga bool, inject map[int]int, probes bo
 		if s.broken != "" {
 			break
 		}
+	}
+	if s.broken != "" {
+		complete = false // do not wait for a wedged server connection by connection
 	}
 	return s.finish(kind, wga, inject, complete)
 }
